@@ -3,6 +3,7 @@
 FAMILIES = {
     "vec": {"src": "scen/vec.cpp", "parts": 4},
     "str": {"src": "scen/str.cpp", "parts": 5},
+    "set": {"src": "scen/set.cpp", "parts": 2},
 }
 
 SAN = ["-O1", "-g1", "-fsanitize=address,undefined", "-fno-sanitize-recover=undefined", "-fno-omit-frame-pointer"]
@@ -48,8 +49,20 @@ PROPS = {
         "quick": {"flavours": ["chk-O2"], "runs": 400000, "max_seconds": 40},
         "thorough": {"flavours": ["chk-O2", "chk-asan", "off-asan", "chk-O0"], "runs": 12000000, "max_seconds": 240},
     },
+    "C09": {
+        "families": ["set"],
+        "level": "exploration",
+        "rule": "one run = one seeded plan over a pool of 1-3 sets of one scenario (static_set / flat_set over static_vector; int or "
+                "instrumented keys; capacity 1,3,4; less, greater, transparent less<>) with keys from a universe of 6, so duplicates "
+                "and the full condition occur in almost every run; after every step every lookup (find contains count lower_bound "
+                "upper_bound equal_range, homogeneous and heterogeneous) is compared with std::set for every key of the universe "
+                "and strict ordering is checked with the set's own comparator; non-trivial and distinct as for C01",
+        "assumptions": COMMON_ASSUME,
+        "quick": {"flavours": ["chk-O2"], "runs": 300000, "max_seconds": 40},
+        "thorough": {"flavours": ["chk-O2", "chk-asan", "off-asan", "chk-O0"], "runs": 10000000, "max_seconds": 240},
+    },
     "C02": {
-        "families": ["vec", "str"],
+        "families": ["vec", "str", "set"],
         "level": "exploration",
         "rule": "one run = one seeded plan of valid (and capacity-refusal) steps executed twice under two different garbage "
                 "patterns in the arena, under ASan+UBSan, with guard zones, exact-size heap argument buffers and the allocator "
@@ -59,7 +72,7 @@ PROPS = {
         "thorough": {"flavours": ["chk-asan", "off-asan", "chk-O2", "chk-O0"], "runs": 6000000, "max_seconds": 240},
     },
     "C03": {
-        "families": ["vec"],
+        "families": ["vec", "set"],
         "level": "exploration",
         "rule": "one run = one seeded plan over owners of instrumented elements; every special-member call is checked against "
                 "an address-keyed lifetime registry, the live set inside each owner must equal [begin,end) after every step "
@@ -69,7 +82,7 @@ PROPS = {
         "thorough": {"flavours": ["chk-O2", "chk-asan", "off-asan", "chk-O0"], "runs": 12000000, "max_seconds": 240},
     },
     "C05": {
-        "families": ["vec", "str"],
+        "families": ["vec", "str", "set"],
         "level": "fault_enumeration",
         "rule": "misuse faults (a precondition-violating call at the boundary, boundary+1 and max) are attached to seeded steps "
                 "of container histories; the replaced handler must be entered with a location before any damage and, for "
@@ -121,6 +134,16 @@ MANIFEST_TEXT = {
                 "except the documented clamping appends. Two test-pinned deviations (replace overwrite semantics, default pos of the "
                 "reverse searches) are open known findings with executable defect models.",
         "ref": "DESIGN.md section 3 C04",
+    },
+    "C09": {
+        "text": "Seeded history simulation of static_set and flat_set (over static_vector) with int and instrumented keys, capacities "
+                "1,3,4 and comparators less, greater and transparent less<> against std::set, plus flat_multiset construction from "
+                "arbitrary containers: every (iterator,bool) / erased-count result, every lookup for every key of a 6-key universe "
+                "after every step, strict ordering by the set's own comparator, refusal of a new key at capacity (static_set: "
+                "{_,false}; flat_set: the backing container's precondition traps) with the set unchanged.",
+        "note": "Trusts libstdc++ std::set. inplace_vector cannot back flat_set (no positional emplace/erase) and is not simulated; "
+                "static_set::equal_range is ill-formed (open known finding) and excluded.",
+        "ref": "DESIGN.md section 3 C09",
     },
     "C05": {
         "text": "A catalogue of precondition-violating calls (at the boundary, +1, max) is injected at seeded points of container "
